@@ -176,10 +176,10 @@ func (d *peerDrain) Read(buf []byte) (int, error) {
 // poolLog records the flate-reader get/put/use events of all connections through the verif hook.
 type poolLog struct {
 	mu    sync.Mutex
-	evs   []string          // g:c:o / p:c:o / u:c:o with small integer ids
+	evs   []string // g:c:o / p:c:o / u:c:o with small integer ids
 	conns map[*websocket.Conn]int
 	objs  map[uintptr]int
-	owner map[int]int       // object → connection (the harness's own monitor)
+	owner map[int]int // object → connection (the harness's own monitor)
 	bad   string
 }
 
@@ -232,7 +232,7 @@ func (l *poolLog) hook(c *websocket.Conn, kind string, obj uintptr) {
 func runC07(ctx *runCtx) {
 	rep := ctx.rep
 	rep.Rule = "2..8 connections run concurrently (both roles, compression off / takeover / no takeover), every byte of every payload on connection i is the tag byte of i; per round one of: read again after end-of-message, abandon a message, peer Close frame inside a (compressed, fragmented) message, CloseNow racing a reader inside a message, context expiry inside a message, plain reads, writes with an abandoned Writer; then Close/CloseNow and a new connection that reuses the pools. " +
-		"oracle: every byte returned by any read equals the connection's own tag; the verif hook logs every inflater Get/Put/use with connection and object identity, checked by an ownership monitor in the harness and by the Lean monitor. Thorough tier repeats under the race detector. distinct = (conns, rounds, seed)"
+		"oracle: every byte returned by any read equals the connection's own tag; the verif hook logs every inflater Get/Put/use with connection and object identity, checked by an ownership monitor in the harness and by the Lean monitor. Targeted scenarios: wsjson buffer pool after an invalid document; a connection closed while a frame write is stuck in the transport; sliding windows of closed context-takeover connections vs a new connection receiving a stream whose back-references point before its start (must fail, never return the earlier bytes). Thorough tier repeats under the race detector. distinct = (conns, rounds, seed)"
 	rng := newRng(ctx.seed, "c07")
 	batches := 12
 	if ctx.thorough() {
@@ -300,7 +300,7 @@ func runC07(ctx *runCtx) {
 	for _, sc := range []struct {
 		name string
 		f    func(int) (string, string)
-	}{{"json-pool", jsonPoolScenario}, {"stale-writer", staleWriterScenario}} {
+	}{{"json-pool", jsonPoolScenario}, {"stale-writer", staleWriterScenario}, {"window-pool", windowPoolScenario}} {
 		sh, w := "", ""
 		func() {
 			defer func() {
